@@ -2618,7 +2618,20 @@ class NetCDFRead(IORead):
             geometry_dimension = g["geometries"][geometry_ncvar].get(
                 "geometry_dimension"
             )
-            if geometry_dimension not in g["variable_dimensions"][parent_ncvar]:
+            parent_dimensions = tuple(g["variable_dimensions"][parent_ncvar])
+            domain_dimensions = g["variable_attributes"][parent_ncvar].get(
+                "dimensions"
+            )
+            if domain_dimensions is not None:
+                # The parent is a domain variable, which names its
+                # dimensions with its 'dimensions' attribute. CF>=1.9
+                parent_dimensions += tuple(
+                    self._split_string_by_white_space(
+                        parent_ncvar, domain_dimensions, variables=True
+                    )
+                )
+
+            if geometry_dimension not in parent_dimensions:
                 self._add_message(
                     parent_ncvar,
                     geometry_ncvar,
